@@ -264,6 +264,11 @@ def process(run, cases, corr_every=1, full=True):
     if harness_errors:
         raise common.InfraError('harness error in %d cases, first:\n%s' % (len(harness_errors), harness_errors[0]))
 
+    # the generators must actually reach the code under test
+    n_ok = status.get('ok', 0)
+    run.oblige('coverage:cases-reach-converted-code', 'coverage', n_ok >= 0.8 * len(jobs),
+               'only %d of %d cases raised in both runs with the expected functions converted: %s' % (n_ok, len(jobs), status))
+
     # ---------------- correspondence ----------------
     classes_by_case, checks_by_case = {}, {}
     if run.driver_ok:
@@ -391,12 +396,14 @@ def process(run, cases, corr_every=1, full=True):
         run.fail(f['what'], {'src': res['src'], 'entry': res['entry'], 'args': res['args'], 'fn_conv': res['fn_conv'],
                              'spec': case.get('spec'), 'oracle': f['oracle'], 'corpus': case.get('corpus')}, cls)
 
-    # every listed known finding must still be witnessed by its corpus case (else the listing is stale)
+    # a listed finding whose class was not observed is reported in the evidence (a fix in /repo makes the listing stale;
+    # that is not a violation of the property)
     listed = [k for k in common.load_known_findings() if k.get('property') == 'C12' and k.get('status', 'open') == 'open']
     hit = set(f.get('cls') for f in run.failing)
-    for k in (listed if full else []):
-        run.oblige('known-finding-still-reproduces:' + k['id'], 'finding', k['class'] in hit,
-                   'no failing case of class %s was observed (is the defect fixed? then update the model and drop the finding)' % k['class'])
+    stale = [k['id'] for k in (listed if full else []) if k['class'] not in hit]
+    if stale:
+        run.notes.append('listed known findings whose class was NOT observed in this run (fixed in the tree under test?): %s' % stale)
+    run.cov['known_findings_not_reproduced'] = stale
 
     run.cov.update({
         'case_status': status, 'type_outcomes': type_map, 'traceback_depth_user_frames': depth_hist,
